@@ -73,6 +73,8 @@ static CO_ERR COTPdoMapWrite(struct CO_OBJ_T *obj, struct CO_NODE_T *node, void 
     uint16_t  pmapidx;
     uint16_t  pcomidx;
     uint8_t   mapn;
+    uint32_t  objsz;
+    uint32_t  maplen;
 
     CO_UNUSED(size);
     ASSERT_PTR_ERR(obj, CO_ERR_BAD_ARG);
@@ -116,6 +118,17 @@ static CO_ERR COTPdoMapWrite(struct CO_OBJ_T *obj, struct CO_NODE_T *node, void 
     } else if ((pmapidx >= COT_OBJECT_TPDO) && (pmapidx <= COT_OBJECT_TPDO + COT_OBJECT_NUM)) {
         maps = CO_IS_READ(objm->Key);
         if (maps == 0) {
+            return (CO_ERR_OBJ_MAP_TYPE);
+        }
+    }
+
+    /* check that the mapped length is the length of the linked object
+     * (supported exception: the lower 24 bits of a 32 bit object)
+     */
+    objsz  = COObjGetSize(objm, node, 0L);
+    maplen = (map & 0xFF);
+    if ((objsz > 0) && (objsz <= 4) && (maplen != (objsz << 3))) {
+        if (!((objsz == 4) && (maplen == 24))) {
             return (CO_ERR_OBJ_MAP_TYPE);
         }
     }
